@@ -13,7 +13,10 @@
 (* The header message has two parts (au: Audit, auth: Auth); soap:header     *)
 (* selects part="auth", so the Header holds the Auth element only.          *)
 (* d.types: "inline" | "imported" (the schema of wsdl:types lives in a      *)
-(*                 file of its own, reached by xsd:import)                  *)
+(*                 file of its own, reached by xsd:import) | "wsdl-import"  *)
+(*                 (an interface WSDL with its own inline types is imported *)
+(*                 by the binding / service WSDL, which has inline types    *)
+(*                 too: the schemas of BOTH documents count)                *)
 (***************************************************************************)
 EXTENDS Naturals, Sequences, SequencesExt, FiniteSets, TLC
 
